@@ -36,14 +36,23 @@ fn con_sets() -> Vec<Vec<ConRep>> {
         ],
         vec![
             ConRep::new(3, EQ_ZERO, None).with_meta("three"),
-            ConRep::new(5, LE_ZERO, Some(FnRep::Const(1.0))).with_meta("five"),
+            // value 5e-7 at every state: within the 1e-6 feasibility tolerance whether active or removed
+            ConRep::new(5, LE_ZERO, Some(FnRep::Const(5e-7))).with_meta("five"),
             ConRep::new(40, LE_ZERO, Some(FnRep::Poly { terms: vec![(vec![7, 1, 7], 1.0), (vec![], -2.0)] })),
         ],
         vec![
             ConRep::new(3, LE_ZERO, lin(vec![(1, 1.0)], -1.0)),
             ConRep::new(5, LE_ZERO, lin(vec![(1, 1.0)], -1.0)), // same function and equality, different id
             ConRep::new(40, EQ_ZERO, lin(vec![(2, 2.0)], -1.0)).with_meta("forty"),
-            ConRep::new(8, LE_ZERO, lin(vec![(7, -1.0)], 0.0)).with_meta("eight"),
+            ConRep::new(8, EQ_ZERO, Some(FnRep::Const(-5e-7))).with_meta("eight"),
+        ],
+        // thorough tier only: five constraints
+        vec![
+            ConRep::new(3, LE_ZERO, lin(vec![(1, 1.0), (2, 1.0)], -1.0)).with_meta("three"),
+            ConRep::new(5, EQ_ZERO, Some(FnRep::Quad { entries: vec![(2, 1, 1.0)], lin: Some((vec![], -1.0)) })),
+            ConRep::new(40, LE_ZERO, lin(vec![(7, 1.0), (1, -1.0)], 0.0)).with_meta("forty"),
+            ConRep::new(8, LE_ZERO, lin(vec![(7, -1.0)], 0.0)),
+            ConRep::new(0, EQ_ZERO, lin(vec![(2, 2.0)], -1.0)).with_meta("zero"),
         ],
     ]
 }
@@ -341,7 +350,8 @@ impl Model for M {
 
     fn actions(&self, _s: &St, out: &mut Vec<Action>) {
         for id in self.ids.iter().chain(std::iter::once(&99)) {
-            for reason in ["a", "b"] {
+            // the empty string is a legal reason and still marks the constraint as removed
+            for reason in ["a", ""] {
                 for with_params in [false, true] {
                     out.push(Action::Relax { id: *id, reason: reason.to_string(), with_params });
                 }
@@ -392,11 +402,14 @@ pub fn run(ctx: &Ctx) -> Finish {
     let mut models = vec![];
     for (si, set) in sets.iter().enumerate() {
         let ids: Vec<u64> = set.iter().map(|c| c.id).collect();
+        if set.len() == 5 {
+            if ctx.tier == Tier::Thorough {
+                models.push((si, ids.clone(), vec![]));
+            }
+            continue;
+        }
         // initial instances: none removed, first removed, first two removed, all removed
         for k in [0usize, 1, 2, ids.len()] {
-            if ctx.tier == Tier::Quick && si == 2 && k == 1 {
-                continue;
-            }
             models.push((si, ids.clone(), ids[..k].to_vec()));
         }
     }
@@ -442,8 +455,8 @@ pub fn run(ctx: &Ctx) -> Finish {
     });
     Finish {
         level: "model_checking",
-        rule: "explicit-state breadth-first search (stateright) from each initial instance over the actions relax(id, reason in {a,b}, params in {none,{k:v}}) and restore(id) for every constraint id and the unknown id 99; the instance message IS the state (dedup key = its bytes + reference model), so all histories of any length are covered; every transition is compared with a two-set reference model and every reachable state is checked: active+removed multiset of (id, function, equality, metadata) unchanged, ids partitioned, recorded reasons, and on all 27 grid states per-constraint values and feasible equal the initial instance's while feasible_relaxed follows the currently active constraints".into(),
-        bounds: json!({"constraint_sets": sets.len(), "constraints_per_instance": "3 or 4", "initial_instances": "0,1,2,all initially removed", "actions_per_state": "5 per id incl. unknown id", "histories": "all lengths (full reachable state space)"}),
+        rule: "explicit-state breadth-first search (stateright) from each initial instance over the actions relax(id, reason in {a, empty string}, params in {none,{k:v}}) and restore(id) for every constraint id and the unknown id 99; the instance message IS the state (dedup key = its bytes + reference model), so all histories of any length are covered; every transition is compared with a two-set reference model and every reachable state is checked: active+removed multiset of (id, function, equality, metadata) unchanged, ids partitioned, recorded reasons, and on all 27 grid states per-constraint values and feasible equal the initial instance's while feasible_relaxed follows the currently active constraints".into(),
+        bounds: json!({"constraint_sets": sets.len(), "constraints_per_instance": if ctx.tier == Tier::Thorough { "3, 4 or 5" } else { "3 or 4" }, "initial_instances": "0,1,2,all initially removed", "actions_per_state": "5 per id incl. unknown id", "histories": "all lengths (full reachable state space)"}),
         exhaustive: true,
     }
 }
